@@ -125,8 +125,13 @@ def observe(text, profile='limits'):
         return None, ('parse', type(e).__name__, str(e)[:100])
     try:
         out = ('v', st.evaluate(context=s['ctx'].create_child_context()))
-    except (RecursionError, MemoryError):
+    except RecursionError:
         raise
+    except MemoryError:
+        # the worker's memory cap was reached: the evaluation materialised something without bound (an observation)
+        import gc
+        gc.collect()
+        out = ('e', 'MemoryError', 'evaluation ran out of the memory allowed to a worker')
     except Exception as e:
         out = ('e', type(e).__name__, str(e)[:100])
     return list(s['log']), out
